@@ -150,3 +150,36 @@ func vhC41Rotation() {
 	}
 	vAssert("resolved-once", r.calls == 1)
 }
+
+
+// vhC41ConcurrentRotation: two dials of the same multi-address host at the
+// same time, exactly one address accepting and the others refusing: each dial
+// walks the addresses in rotation, so both must connect.
+func vhC41ConcurrentRotation() {
+	c41InProgress, c41MaxInProgress = 0, 0
+	c41Behaviour = map[string]int{}
+	n := 2 + vChoose("addresses", 2)
+	live := vChoose("liveAddress", n)
+	r := &c41Resolver{}
+	for i := 0; i < n; i++ {
+		ip := net.IPv4(10, 0, 0, byte(i+1))
+		r.addrs = append(r.addrs, net.IPAddr{IP: ip})
+		if i != live {
+			c41Behaviour[ip.String()+":80"] = 1
+		}
+	}
+	d := &TCPDialer{Concurrency: 1 + vChoose("concurrency", 2), Resolver: r}
+	errs := make([]error, 2)
+	done := make(chan int, 2)
+	for i := 0; i < 2; i++ {
+		i := i
+		go func() {
+			vYield()
+			_, errs[i] = d.DialTimeout("h.test:80", time.Second)
+			done <- i
+		}()
+	}
+	<-done
+	<-done
+	vAssert("every-dial-reaches-the-one-live-address", errs[0] == nil && errs[1] == nil)
+}
